@@ -25,6 +25,21 @@ pub enum Case07 {
     Desc(CaseDesc),
     /// `n` instances of `class` carrying the first `k` properties of the menu
     Props { class: String, n: usize, k: usize },
+    /// `n` Parts carrying the properties of the spelling menu selected by `mask`: several spellings
+    /// (canonical / alias / legacy) of one logical property on the same instance, with different values
+    Spell { mask: u8, n: usize },
+}
+
+fn spell_menu() -> Vec<(String, PVal)> {
+    use rbx_dom_weak::types::BrickColor;
+    vec![
+        ("BrickColor".into(), PVal::V(Variant::BrickColor(BrickColor::from_number(21).unwrap()))),
+        ("Color3uint8".into(), PVal::V(Variant::Color3uint8(Color3uint8::new(1, 2, 3)))),
+        ("Color".into(), PVal::V(Variant::Color3uint8(Color3uint8::new(200, 100, 50)))),
+        ("size".into(), PVal::V(Variant::Vector3(Vector3::new(1.0, 2.0, 3.0)))),
+        ("Size".into(), PVal::V(Variant::Vector3(Vector3::new(4.0, 5.0, 6.0)))),
+        ("brickColor".into(), PVal::V(Variant::BrickColor(BrickColor::from_number(23).unwrap()))),
+    ]
 }
 
 fn menu() -> Vec<(String, PVal)> {
@@ -55,6 +70,19 @@ pub fn plan_of(c: &Case07) -> Plan {
                     parent: if i == 0 { None } else { Some(0) },
                     // later instances carry fewer properties (heterogeneous columns)
                     props: m.iter().take(k.saturating_sub(i)).cloned().collect(),
+                })
+                .collect();
+            Plan { nodes, roots: RootSel::Nodes(vec![0]) }
+        }
+        Case07::Spell { mask, n } => {
+            let m = spell_menu();
+            let nodes = (0..*n)
+                .map(|i| PNode {
+                    class: "Part".into(),
+                    name: format!("s{}", i),
+                    parent: if i == 0 { None } else { Some(0) },
+                    // the second instance carries the complementary selection
+                    props: m.iter().enumerate().filter(|(b, _)| ((mask >> b) & 1 == 1) != (i % 2 == 1)).map(|(_, p)| p.clone()).collect(),
                 })
                 .collect();
             Plan { nodes, roots: RootSel::Nodes(vec![0]) }
@@ -166,6 +194,12 @@ fn variants(c: &Case07, tier: Tier) -> Vec<Variant07> {
                 p += step;
             }
         }
+        Case07::Spell { .. } => {
+            // every permutation of up to 6 properties (720), all three constructions in turn
+            for p in 0..720 {
+                v.push(Variant07 { how: (p % 3) as u8, ref_rot: p % 8, fixed_refs: p % 2 == 0, perm: p });
+            }
+        }
         Case07::Desc(_) => {
             for how in 0..3u8 {
                 for (fixed, rot) in [(true, 0usize), (true, 3), (true, 5), (false, 0)] {
@@ -187,6 +221,14 @@ pub fn cases(tier: Tier) -> Vec<Case07> {
             for k in 2..=menu().len() {
                 out.push(Case07::Props { class: class.into(), n, k });
             }
+        }
+    }
+    for mask in 0..64u8 {
+        if mask.count_ones() < 2 {
+            continue;
+        }
+        for n in 1..=2 {
+            out.push(Case07::Spell { mask, n });
         }
     }
     out
@@ -220,6 +262,7 @@ pub fn judge_case(c: &Case07, tier: Tier, out: &mut SweepOut) -> Option<String> 
     let vs = variants(c, tier);
     let class = match c {
         Case07::Props { .. } => "props".to_owned(),
+        Case07::Spell { .. } => "spellings".to_owned(),
         Case07::Desc(d) => crate::codec::class_of(d),
     };
     let base = match outputs(&plan, &vs[0]) {
@@ -404,6 +447,7 @@ pub fn check(run: &Run) -> Value {
         if ds.iter().any(|(_, d)| d != &ds[0].1) {
             let class = match &cs[*i] {
                 Case07::Props { .. } => "props".to_owned(),
+        Case07::Spell { .. } => "spellings".to_owned(),
                 Case07::Desc(d) => crate::codec::class_of(d),
             };
             total.violation(
